@@ -13,8 +13,11 @@
   * the unit holds the two caches; `ctx.Memory` lives in `Model.Context` and is passed
     in and out as a `List Byte` by the operations that read or write it;
   * addresses cross the API as Go's `int32` (`Word`); inside, `comp.AlignedAddress`
-    arithmetic is done on `Int` (`Word.toInt`) as in `Model/LineCache.lean`
-    (ASSUMPTION recorded there: |address| + lineLength < 2^31, so no wrap-around);
+    arithmetic is done on `Int` (`Word.toInt`) as in `Model/LineCache.lean`.  The one place
+    where `int32` arithmetic can wrap for a 32-bit address — the upper bound
+    `Boundary[1] = addr + lineLength` of a pushed line — is re-established by the unit
+    (`wrap32`, `fixHead`): the line that would end at 2^31 gets a negative bound and is never
+    hit, exactly as in Go (.work/reports/C05-defect-1.md);
   * `doesExecutionMemoryChangesExistsInL1D` and `writeExecutionMemoryChangesToL1D`
     range over a Go map (`Execution.MemoryChanges`); the translated `Gen.Execution`
     carries the changes as a list in the order the instruction builds them.  The first
@@ -24,7 +27,7 @@
   * `flush` performs, per line, `l1DCacheLineSize` identical calls of `writeToMemory`
     (the Go loop `for i := 0; i < l1DCacheLineSize; i++` does not use `i`); the calls are
     idempotent, the model performs the write once when the constant is positive
-    (the calls are idempotent: `Proofs/Mmu.lean`, `writeToMemory_idem`).
+    (the calls are idempotent: `Proofs/Mmu.lean`, `writeToMemory_idem`, `flushLine_literal`).
 
   INTERFACE (kept stable; work package MVP4 builds on it): `Config`, `mvp3Config`,
   `mvp4Config`, `mvp5Config`, `Mmu`, `new`, `getFromL1I`, `pushLineToL1I`, `getFromL1D`,
@@ -78,6 +81,17 @@ def new (cfg : Config) : M Mmu := do
   let l1d ← newCache cfg.l1DLineSize cfg.l1DSize
   pure { l1i := l1i, l1d := l1d }
 
+/-- Go computes `Boundary[1] = addr + AlignedAddress(c.lineLength)` in `int32`: a line that would end at or
+beyond 2^31 gets a negative upper bound and never matches any address (`Model/LineCache.lean` works on `Int`
+and does not wrap; the unit re-establishes the `int32` value on the line it has just pushed). -/
+def wrap32 (x : Int) : Int := (BitVec.ofInt 32 x).toInt
+
+/-- the line just pushed (the head) with its upper bound as `int32` -/
+def fixHead (c : LineCache.Cache) : LineCache.Cache :=
+  match c.lines with
+  | [] => c
+  | l :: ls => { c with lines := { l with hi := wrap32 l.hi } :: ls }
+
 /-- the loop shared by `getFromL1I` and `getFromL1D`:
 `for _, addr := range addrs { v, exists := cache.Get(addr); if !exists { return nil, false }; … }`.
 Every hit refreshes the recency of its line, also when a later address misses. -/
@@ -98,7 +112,7 @@ def getFromL1I (u : Mmu) (addrs : List Word) : M (Option (List Byte) × Mmu) := 
 
 /-- `pushLineToL1I(addr, line)`: `u.l1i.PushLine(addr, line)`, result dropped -/
 def pushLineToL1I (u : Mmu) (addr : Word) (line : List Byte) : Mmu :=
-  { u with l1i := (LineCache.pushLine u.l1i addr.toInt line).2 }
+  { u with l1i := fixHead (LineCache.pushLine u.l1i addr.toInt line).2 }
 
 /-- `getFromL1D(addrs) ([]int8, bool)` -/
 def getFromL1D (u : Mmu) (addrs : List Word) : M (Option (List Byte) × Mmu) := do
@@ -210,7 +224,8 @@ written back to memory.  Returns the unit and `ctx.Memory`. -/
 def pushLineToL1D (cfg : Config) (u : Mmu) (mem : List Byte) (addr : Word) (line : List Byte) :
     M (Mmu × List Byte) := do
   let lo ← LineCache.alignDown addr.toInt cfg.l1DLineSize
-  let (evicted, c1) := LineCache.pushLineWithEvictionWarning u.l1d lo line
+  let (evicted, c0) := LineCache.pushLineWithEvictionWarning u.l1d lo line
+  let c1 := fixHead c0
   match evicted with
   | none => pure ({ u with l1d := c1 }, mem)
   | some ev => do
@@ -236,12 +251,14 @@ def flush (cfg : Config) (u : Mmu) (mem : List Byte) : M (List Byte × Int) :=
 
 /-! ### the contract of the callers, as decidable predicates (hypotheses of Proofs/Mmu.lean) -/
 
-/-- the addresses of one load lie in memory and in ONE line of `L` bytes (same `addr - addr % L`) -/
+/-- the addresses of one load lie in memory and in ONE line of `L` bytes (same `addr - addr % L`) that ends
+below 2^31 (the `int32` upper bound of a line must not wrap) -/
 def loadOk (L : Int) (memLen : Nat) (addrs : List Word) : Bool :=
   match addrs with
   | [] => true
   | a0 :: _ => addrs.all fun a =>
-      decide (0 ≤ a.toInt) && decide (a.toInt < memLen) && decide (a.toInt - Int.tmod a.toInt L = a0.toInt - Int.tmod a0.toInt L)
+      decide (0 ≤ a.toInt) && decide (a.toInt < memLen) && decide (a.toInt - Int.tmod a.toInt L = a0.toInt - Int.tmod a0.toInt L) &&
+      decide (a.toInt - Int.tmod a.toInt L + L < 2 ^ 31)
 
 /-- the changes of one store: non-empty, consecutive ascending addresses from the first one, in memory
 and in ONE line -/
